@@ -58,3 +58,12 @@ package authorizers
 //@   assert at return#3@971bece5.1: ret1 != nil
 //@   assert at return#4@608bda07.1: ret1 != nil
 //@   assert at return#5@608bda07.2: ret1 != nil
+
+// C10: "a configured cache TTL can only shorten these lifetimes, and a TTL of zero disables caching
+// for that mechanism" - also when it is the rule that configures it: a rule-level cache_ttl, when
+// given, is the TTL in force (zero included), otherwise the catalogue entry's is.
+// (conf is the function's local decode target; its value at exit is what the decoder produced)
+//@ func (*remoteAuthorizer).WithConfig
+//@   props C10
+//@   ensures ret1 == nil && old(len(rawConfig)) != 0 && conf.CacheTTL != nil ==> unbox(ret0, *remoteAuthorizer).ttl == *conf.CacheTTL
+//@   ensures ret1 == nil && old(len(rawConfig)) != 0 && conf.CacheTTL == nil ==> unbox(ret0, *remoteAuthorizer).ttl == old(a.ttl)
